@@ -168,7 +168,9 @@ func (cx *Connection) prefetch() (err error) {
 
 		cx.bytesRead += uint64(n)
 
-		if err != nil {
+		// bytes read count even if they came with an error (io.Reader contract: e.g. a TLS connection
+		// returns the last record together with io.EOF); the error is reported by the next read
+		if err != nil && n == 0 {
 			return err
 		}
 
